@@ -642,16 +642,14 @@ func (e *Extractor) showTextArray(arr core.Array) {
 			hScale := e.gs.Text.HorizontalScaling / 100.0
 			adjustment := -float64(v) * e.gs.GetFontSize() * hScale / 1000.0
 
-			// Update text matrix
-			tm := e.gs.GetTextMatrix()
-			tm[4] += adjustment
-			e.gs.SetTextMatrix(tm)
+			// Update the text matrix only: the text line matrix stays where the
+			// last Td/Tm/T* put it (SetTextMatrix would move it too, and the next
+			// Td or T* would start from the middle of this line)
+			e.gs.Text.TextMatrix[4] += adjustment
 		case core.Real:
 			hScale := e.gs.Text.HorizontalScaling / 100.0
 			adjustment := -float64(v) * e.gs.GetFontSize() * hScale / 1000.0
-			tm := e.gs.GetTextMatrix()
-			tm[4] += adjustment
-			e.gs.SetTextMatrix(tm)
+			e.gs.Text.TextMatrix[4] += adjustment
 		}
 	}
 }
